@@ -535,8 +535,9 @@ public:
     /// \brief Inserts count copies of character ch at the position index.
     constexpr auto insert(size_type const index, size_type const count, Char const ch) noexcept -> basic_inplace_string&
     {
+        TETL_PRECONDITION(index <= size());
         for (size_type i = 0; i < count; ++i) {
-            insert_impl(begin() + index, &ch, 1);
+            insert_impl(index, &ch, 1);
         }
         return *this;
     }
@@ -545,7 +546,7 @@ public:
     /// position index.
     constexpr auto insert(size_type const index, const_pointer s) noexcept -> basic_inplace_string&
     {
-        insert_impl(begin() + index, s, traits_type::length(s));
+        insert_impl(index, s, traits_type::length(s));
         return *this;
     }
 
@@ -554,14 +555,14 @@ public:
     constexpr auto insert(size_type const index, const_pointer s, size_type const count) noexcept
         -> basic_inplace_string&
     {
-        insert_impl(begin() + index, s, count);
+        insert_impl(index, s, count);
         return *this;
     }
 
     /// \brief Inserts string str at the position index.
     constexpr auto insert(size_type const index, basic_inplace_string const& str) noexcept -> basic_inplace_string&
     {
-        insert_impl(begin() + index, str.data(), str.size());
+        insert_impl(index, str.data(), str.size());
         return *this;
     }
 
@@ -576,7 +577,7 @@ public:
     {
         using view_type = basic_string_view<Char, traits_type>;
         auto sv         = view_type(str).substr(indexStr, count);
-        insert_impl(begin() + index, sv.data(), sv.size());
+        insert_impl(index, sv.data(), sv.size());
         return *this;
     }
 
@@ -615,7 +616,7 @@ public:
     constexpr auto insert(size_type const pos, StringView const& view) noexcept -> basic_inplace_string&
     {
         basic_string_view<Char, traits_type> sv = view;
-        insert_impl(begin() + pos, sv.data(), sv.size());
+        insert_impl(pos, sv.data(), sv.size());
         return *this;
     }
 
@@ -631,7 +632,7 @@ public:
         basic_string_view<Char, traits_type> sv = view;
 
         auto sub = sv.substr(indexStr, count);
-        insert_impl(begin() + index, sub.data(), sub.size());
+        insert_impl(index, sub.data(), sub.size());
         return *this;
     }
 
@@ -1281,9 +1282,12 @@ private:
         unsafe_at(newSize) = Char(0);
     }
 
-    constexpr auto insert_impl(iterator pos, const_pointer text, size_type count) -> void
+    constexpr auto insert_impl(size_type index, const_pointer text, size_type count) -> void
     {
+        TETL_PRECONDITION(index <= size());
+
         // Insert text at end.
+        auto* pos        = begin() + index;
         auto* currentEnd = end();
         append(text, count);
 
